@@ -5,8 +5,9 @@ symbolic feature flags; the ``_CapabilitiesMiddleware`` it built is pulled out o
 ``process_response`` is run on a fake request/response (symbolic HTTP method, symbolic outcome flag), and the real
 ``http_capabilities`` parses the produced header map through a fake client.
 
-Asserted: header present <=> feature configured; value == str(configured value); every call sets all of them
-(whatever the method / success flag); ``Cache-Control`` only on OPTIONS; the probe reads every int back exactly
+Asserted: header present <=> feature configured; value == str(configured value) (list-valued headers: the same
+set of comma-separated tokens, whatever the spacing / order / case); every call sets all of them
+(whatever the method / success flag); no other ``VGI-*`` header; the probe reads every int back exactly
 (``int(str(n)) == n`` for unbounded n is the solver's part) together with the boolean features.
 """
 
@@ -43,7 +44,9 @@ OUTSIDE = (
     "digit count of str(n)/int(s), it does not decide the round trip for unbounded n); "
     "Falcon invoking the middleware on error / 401 / 404 / OPTIONS / HEAD responses (the middleware is run directly; "
     "the replay checks those route kinds on the real app for the counterexample configuration only); a non-integral "
-    "float sticky_default_ttl (the header carries int(ttl)); CORS expose list; zstd availability in the interpreter"
+    "float sticky_default_ttl (the header carries int(ttl)); CORS expose list; zstd availability in the interpreter; "
+    "Cache-Control on the discovery response (a MAY in WIRE_PROTOCOL) and the client's cache_expires_at stamp; spacing / order / "
+    "case inside the comma-separated list headers; headers that are not VGI-* (not capability headers)"
 )
 ASSUMPTIONS = [
     "sticky_default_ttl modelled as int (symbolic floats are ~60x slower; the factory renders str(int(ttl)))",
@@ -120,10 +123,17 @@ def _find_capabilities_middleware(app: object) -> object | None:
     return found[0] if found else None
 
 
+def _unmodelled(who: str, name: str) -> object:
+    raise HarnessModelError(f"C40 {who} fake: attribute {name!r} is not modelled")
+
+
 class _Req:
     def __init__(self, method: str) -> None:
         self.method = method
         self.path = "/health"
+
+    def __getattr__(self, name: str) -> object:
+        return _unmodelled("request", name)
 
 
 class _Resp:
@@ -132,6 +142,12 @@ class _Resp:
 
     def set_header(self, name: str, value: str) -> None:
         self.headers = [(n, v) for n, v in self.headers if n.lower() != name.lower()] + [(name, value)]
+
+    def get_header(self, name: str, default: object = None) -> object:
+        return _Headers(self.headers).get(name, default)
+
+    def __getattr__(self, name: str) -> object:
+        return _unmodelled("response", name)
 
 
 class _Headers:
@@ -146,12 +162,18 @@ class _Headers:
                 return v
         return default
 
+    def __getattr__(self, name: str) -> object:
+        return _unmodelled("header map", name)
+
 
 class _ProbeResponse:
     status_code = 200
 
     def __init__(self, pairs: list) -> None:
         self.headers = _Headers(pairs)
+
+    def __getattr__(self, name: str) -> object:
+        return _unmodelled("probe response", name)
 
 
 class _ProbeClient:
@@ -161,12 +183,19 @@ class _ProbeClient:
         self._pairs = pairs
         self.urls: list = []
 
-    def options(self, url: str, **kw: object) -> _ProbeResponse:
+    def options(self, url: str, *a: object, **kw: object) -> _ProbeResponse:
         self.urls.append(url)
         return _ProbeResponse(self._pairs)
 
+    # WIRE_PROTOCOL: "HEAD and GET carry the same headers" - a probe may use any of the three verbs
+    head = options
+    get = options
+
     def close(self) -> None:
         return None
+
+    def __getattr__(self, name: str) -> object:
+        return _unmodelled("probe client", name)
 
 
 def _fixed_clock() -> float:
@@ -255,8 +284,39 @@ def _expected_headers(mreq, mresp, mext, mup, ttl, storage, provider, compressio
         (intro.INTROSPECT_ENABLED_HEADER, "true" if introspect else None),
         (hcommon.STICKY_ENABLED_HEADER, "true" if sticky else None),
         (hcommon.STICKY_DEFAULT_TTL_HEADER, str(ttl) if sticky else None),
-        (hcommon.STICKY_ECHO_HEADERS_HEADER, ", ".join(_ECHO) if (sticky and echo) else None),
+        # WIRE_PROTOCOL: "Comma-separated header names" - separator spacing, order and case are not part of the contract
+        (hcommon.STICKY_ECHO_HEADERS_HEADER, _Names(_ECHO) if (sticky and echo) else None),
     ]
+
+
+def _tokens(value: object) -> list | None:
+    """A comma-separated header value as the sorted list of its lower-cased non-empty tokens."""
+    if not isinstance(value, str):
+        return None
+    return sorted(t.strip().lower() for t in value.split(",") if t.strip() != "")
+
+
+class _Names:
+    """Expected value 'a comma-separated list holding exactly these header names'."""
+
+    def __init__(self, names: object) -> None:
+        self.names = sorted(str(n).lower() for n in names)  # type: ignore[attr-defined]
+
+    def matches(self, got: object) -> bool:
+        return _tokens(got) == self.names
+
+    def __repr__(self) -> str:
+        return "a comma-separated list of exactly " + repr(self.names)
+
+
+def _header_bad(want: object, got: object) -> bool:
+    if want is None:
+        return got is not None
+    if want is ...:
+        return not isinstance(got, str) or got.strip() == ""
+    if isinstance(want, _Names):
+        return not want.matches(got)
+    return got != want
 
 
 def _check(mreq, mresp, mext, mup, ttl, storage, provider, compression, sticky, echo, proof, introspect, method: int, succeeded: bool, alias: bool = False) -> bool:
@@ -275,20 +335,13 @@ def _check(mreq, mresp, mext, mup, ttl, storage, provider, compression, sticky, 
     cap.process_response(_Req(verb), resp, None, succeeded)  # type: ignore[attr-defined]
     names = [n.lower() for n, _v in spec]
     for name, want in spec:
-        got = _get(resp.headers, name)
-        if want is None:
-            if got is not None:
-                return False
-        elif want is ...:
-            if not isinstance(got, str) or got.strip() == "":
-                return False
-        elif got != want:
+        if _header_bad(want, _get(resp.headers, name)):
             return False
+    # "exactly the capability headers": no capability-like (VGI-*) header beyond the spec'd ones.  Other headers
+    # (Cache-Control - "MAY" on the discovery response -, Vary, ...) are not the property's business.
     for n, _v in resp.headers:
-        if n.lower() not in names and not (n.lower() == "cache-control" and verb == "OPTIONS"):
+        if n.lower().startswith("vgi-") and n.lower() not in names:
             return False
-    if (verb == "OPTIONS") != (_get(resp.headers, "Cache-Control") is not None):
-        return False
     # (2) the client's probe reads the configuration back
     probe_resp = _Resp()
     cap.process_response(_Req("OPTIONS"), probe_resp, None, True)  # type: ignore[attr-defined]
@@ -302,7 +355,8 @@ def _check(mreq, mresp, mext, mup, ttl, storage, provider, compression, sticky, 
         caps = hc.http_capabilities(client=client)  # type: ignore[arg-type]
     finally:
         _time_mod.monotonic = real_monotonic
-    if client.urls != ["/health"]:
+    # the discovery target is {prefix}/health (WIRE_PROTOCOL); how many requests the probe makes is its business
+    if not client.urls or any(u != "/health" for u in client.urls):
         return False
     if caps.max_request_bytes != mreq or caps.max_response_bytes != mresp or caps.max_externalized_response_bytes != mext:
         return False
@@ -312,17 +366,20 @@ def _check(mreq, mresp, mext, mup, ttl, storage, provider, compression, sticky, 
         return False
     if caps.sticky_enabled != sticky or caps.sticky_default_ttl != (ttl if sticky else None):
         return False
-    if caps.sticky_echo_headers != (tuple(_ECHO) if (sticky and echo) else ()):
+    if sorted(str(h).lower() for h in caps.sticky_echo_headers) != (sorted(h.lower() for h in _ECHO) if (sticky and echo) else []):
         return False
     if compression:
         if len(caps.supported_encodings) == 0:
             return False
         advertised = _get(probe_resp.headers, hcommon.SUPPORTED_ENCODINGS_HEADER)
-        if ", ".join(e.value for e in caps.supported_encodings) != advertised:
+        adv = _tokens(advertised) or []
+        # every codec read back was advertised (a client may not know every advertised token)
+        if any(str(e.value).lower() not in adv for e in caps.supported_encodings):
             return False
-    elif caps.supported_encodings != ():
+    elif len(caps.supported_encodings) != 0:
         return False
-    return caps.cache_expires_at is not None
+    # Cache-Control on the discovery response is a MAY: the refresh stamp is not part of the configuration read back
+    return True
 
 
 def _replay_real_app(args: dict) -> str | None:
@@ -344,11 +401,17 @@ def _replay_real_app(args: dict) -> str | None:
         hdr = {k.lower(): v for k, v in r.headers.items()}
         for name, want in spec:
             got = hdr.get(name.lower())
-            bad = (want is None and got is not None) or (want is ... and not (got or "").strip()) or (isinstance(want, str) and got != want)
-            if bad:
+            if _header_bad(want, got):
                 return f"{verb} {path} -> {r.status_code}: header {name} = {got!r}, configuration implies {('absent' if want is None else 'a codec list' if want is ... else repr(want))}"
+        if path == "/health":
+            # the pure discovery response: nothing capability-like beyond the spec'd table
+            known = [n.lower() for n, _w in spec]
+            for k in hdr:
+                if k.startswith("vgi-") and k not in known:
+                    return f"{verb} {path} -> {r.status_code}: carries {k}: {hdr[k]!r}, which no configured feature implies (not in the capability table)"
     mreq, mresp, mext, mup, ttl, storage, provider, compression, sticky, echo, proof, introspect = cfg
-    want = (mreq, mresp, mext, storage == _EXT_FULL, provider, mup if provider else None, sticky, ttl if sticky else None, tuple(_ECHO) if (sticky and echo) else (), compression)
+    want = (mreq, mresp, mext, storage == _EXT_FULL, provider, mup if provider else None, sticky, ttl if sticky else None,
+            tuple(sorted(h.lower() for h in _ECHO)) if (sticky and echo) else (), compression)  # fmt: skip
     # two real clients: the repo's test client (lower-cased plain dict headers) and an httpx-like one
     # (case-insensitive header lookup) fed with the real app's real OPTIONS /health response
     real_options = tc.simulate_request("OPTIONS", "/health")
@@ -365,7 +428,8 @@ def _replay_real_app(args: dict) -> str | None:
 
 def _caps_tuple(caps: object) -> tuple:
     return (caps.max_request_bytes, caps.max_response_bytes, caps.max_externalized_response_bytes, caps.externalization_enabled, caps.upload_url_support,
-           caps.max_upload_bytes, caps.sticky_enabled, caps.sticky_default_ttl, caps.sticky_echo_headers, bool(caps.supported_encodings))  # fmt: skip
+           caps.max_upload_bytes, caps.sticky_enabled, caps.sticky_default_ttl, tuple(sorted(str(h).lower() for h in caps.sticky_echo_headers)),
+           bool(caps.supported_encodings))  # fmt: skip
 
 
 def _canon(args: dict) -> dict:
